@@ -332,9 +332,32 @@ def allocfail_sweep(tier, seed, mode):
                 continue
             for seq in [[op] for op in G.mutating_ops(args=[0, 1, 2, 5])] + G.two_reg_ops() + G.iter_ops()[::5]:
                 base.append(G.case("sqa-%s-%s-%d" % (cls, label, k0), cls, mode, pre + list(seq))); k0 += 1
+    # the serde entry points size requests from the input's claimed length
+    for cls in ("w4", "s16"):
+        for pre in (["new v0"], ["macro_list v0 1 2 3"], ["with_capacity v0 4", "push v0 1"], ["macro_list v0 1 2 3 4 5 6 7 8 9"]):
+            for h in ("N", "2", "5", "40", "2000"):
+                for sq in ("sq[1,2,3,4,5]", "sq[1,2,3,4,5,6,7,8,9,10,11,12,13,14,15,16,17]", "sq[]"):
+                    base.append(G.case("sqs-%s-%d" % (cls, k0), cls, mode, pre + ["deserialize w %s %s" % (h, sq), "deserialize_in_place v0 %s %s" % (h, sq), "push v0 5"])); k0 += 1
+                    base.append(G.case("sqs-%s-%d" % (cls, k0), cls, mode, pre + ["deserialize_in_place v0 %s %s" % (h, sq), "push v0 5"])); k0 += 1
     out = []
     for k in (range(1, 5) if tier == "quick" else range(1, 9)):
         out += rename(with_directive(base, "!allocfail_at %d" % k), "-a%d" % k)
+    return out
+
+def refused_resize_cases(mode):
+    """capacity-changing operations whose allocator request is refused: the call must not return as if it had been
+    granted (a returned `shrink_to_fit` leaves capacity == len, a returned `reserve(n)` capacity >= len + n)"""
+    out = []
+    k = 0
+    for cls in ("w4", "s16", "b1"):
+        for label, pre in G.start_states(cls):
+            if label in ("sentinel", "zero"):
+                continue
+            for op in ("shrink_to_fit v0", "shrink_to v0 0", "shrink_to v0 1", "shrink_to v0 3", "reserve v0 64", "reserve_exact v0 9", "push v0 1"):
+                for kk in (1, 2):
+                    out.append(G.case("rfr-%s-%s-%d-a%d" % (cls, label, k, kk), cls, mode, pre + ["reserve v0 40", op, "spare v0", "push v0 5"], ["!allocfail_at %d" % (kk + 1)]))
+                    out.append(G.case("rfr-%s-%s-%d-b%d" % (cls, label, k, kk), cls, mode, pre + [op, "spare v0", "push v0 5"], ["!allocfail_at %d" % kk]))
+                k += 1
     return out
 
 def empty_with_capacity_cases(mode):
@@ -401,6 +424,23 @@ def forget_cases(tier, seed, mode):
                                           ["!panic_at %d" % j])); k += 1
     return out
 
+def forget_range_cases(mode):
+    """a Drain / Splice made from a RangeBounds whose answers change between calls (`I0>I3`), stepped, then forgotten or
+    dropped: whichever answers the code goes by, the vector left behind exposes only live elements, each once"""
+    out = []
+    k = 0
+    rgs = [("I0>I3", "E4"), ("I0>I2", "U"), ("I1>I0", "E3"), ("I0", "E2>E5"), ("I2>I4", "E4>E2"), ("E0>E2", "I3"), ("I0>I1>I3", "E4>E4>E1")]
+    for cls in ("w4", "s16", "b1"):
+        for label, pre in G.start_states(cls):
+            if label in ("sentinel", "zero", "empty", "over64zero"):
+                continue
+            for a, b in rgs:
+                for steps in ([], ["next it"], ["next it", "next it"], ["next_back it"], ["next it", "next_back it"]):
+                    for fin in ("forget it", "drop it"):
+                        out.append(G.case("fgr-%s-%s-%d" % (cls, label, k), cls, mode, pre + ["drain v0 %s %s it" % (a, b)] + steps + [fin, "push v0 77", "pop v0", "clear v0"], ["!vecdiff off"])); k += 1
+                        out.append(G.case("fgr-%s-%s-%d" % (cls, label, k), cls, mode, pre + ["splice v0 %s %s it[7,8] it" % (a, b)] + steps + [fin, "push v0 77", "pop v0", "clear v0"], ["!vecdiff off"])); k += 1
+    return out
+
 def iterator_cases(tier, seed, mode):
     out = []
     k = 0
@@ -433,6 +473,15 @@ def clone_cases(tier, seed, mode):
         for label, pre in G.start_states(cls):
             for tail in (["drop v0", "push c 1", "pop c", "drop c"], ["drop c", "push v0 1", "pop v0"], ["push v0 1", "push c 2", "truncate v0 1", "compare v0 c"]):
                 out.append(G.case("cl-%s-%s-%d" % (cls, label, k), cls, mode, pre + ["clone v0 c"] + tail)); k += 1
+            # the clone is a vector like any other, whatever storage state it got: every kind of operation works on it
+            for use in (["spare c", "split_spare c", "fill_spare c 2 60", "views c"], ["fill_split_spare c 3 70", "shrink_to_fit c", "push c 1"],
+                        ["into_iter c j", "nth j 0", "nth j 9", "drop j"], ["reserve c 5", "insert c 0 7", "remove c 0"], ["raw_parts c", "push c 2"],
+                        ["drain c U U j", "next j", "drop j", "extend c it[1,2]"], ["dedup c", "retain c mod2=0", "truncate c 1", "clone c d", "push d 1"]):
+                out.append(G.case("clu-%s-%s-%d" % (cls, label, k), cls, mode, pre + ["clone v0 c"] + use + ["push v0 9"])); k += 1
+            # ... and so is the clone of an IntoIter, also of one that has nothing left
+            for steps in (["next it"] * 9, ["next_back it"] * 9, [], ["next it"]):
+                for use in (["nth j 0", "nth j 3"], ["nth_back j 0"], ["count j"], ["iter_views j", "as_slice j", "next j", "next_back j", "drop j"], ["clone_iter j k2", "next k2", "drop k2", "drop j"]):
+                    out.append(G.case("cliu-%s-%s-%d" % (cls, label, k), cls, mode, pre + ["into_iter v0 it"] + steps + ["clone_iter it j"] + use + ["nth it 0", "drop it"])); k += 1
             for other in (["new c"], ["with_capacity c 3"], ["macro_list c 40 41"], ["macro_list c 40 41 42 43 44 45 46 47 48 49"], ["macro_list c 40", "pop c", "shrink_to_fit c"]):
                 out.append(G.case("clf-%s-%s-%d" % (cls, label, k), cls, mode, pre + other + ["clone_from c v0", "push c 1", "drop v0", "pop c"])); k += 1
                 out.append(G.case("clf-%s-%s-%d" % (cls, label, k), cls, mode, pre + other + ["clone_from v0 c", "drop c", "push v0 1", "pop v0"])); k += 1
@@ -463,6 +512,17 @@ def raw_cases(tier, seed, mode):
             for n in (0, 1, 5):
                 for op in ("raw_parts v0", "raw_part v0"):
                     out.append(G.case("rawA-%s-%d" % (cls, k), cls, mode, ["with_alignment v0 %d %d" % (n, a), "push v0 1", "push v0 2", op, "push v0 3", "pop v0"])); k += 1
+        # coincidences between the header words: length == capacity == alignment, capacity == alignment, length == alignment
+        if cls in ("w4", "s16", "b1", "a16", "a32"):
+            for a in (16, 32, 64):
+                fill = "extend v0 it[%s]" % ",".join(str(i % 9) for i in range(a))
+                for pre in (["with_alignment v0 %d %d" % (a, a), fill], ["with_alignment v0 4 %d" % a, fill],
+                            ["with_alignment v0 %d %d" % (a, a), "push v0 1"], ["with_alignment v0 %d %d" % (2 * a, a), fill],
+                            ["with_alignment v0 %d %d" % (a, a), fill, "pop v0"]):
+                    if cls == "b1" and a > 32:
+                        continue
+                    for op in ("raw_parts v0", "raw_part v0"):
+                        out.append(G.case("rawW-%s-%d" % (cls, k), cls, mode, pre + [op, "pop v0", "push v0 3", "shrink_to_fit v0"])); k += 1
     return out
 
 def clone_panic_cases(mode):
@@ -805,11 +865,11 @@ def general(tier, seed, pid, modes=("debug",)):
     return [(m, corpus(m, pid) + general_cases(tier, seed, m)) for m in modes]
 
 PROPS = {
-    "C01": {"modules": ["MiniVecProof.Props.C01", "MiniVecProof.Props.C01Histories", "MiniVecProof.Props.C01Loops", "MiniVecProof.Props.C01Ctors", "MiniVecProof.Props.C01Append", "MiniVecProof.Props.C01SplitOff", "MiniVecProof.Props.C01MacroRepeat", "MiniVecProof.Props.C01ExtendWithin", "MiniVecProof.Props.C17RemoveItem", "MiniVecProof.Props.C12CloneFrom", "MiniVecProof.Props.C12IntoIter", "MiniVecProof.Props.C10DrainFilter", "MiniVecProof.Props.C10Splice"],
-            "cases": lambda tier, seed: [(m, c + views_cases(m) + panic_prefix_cases(m) + clone_glue_cases(m)) for m, c in general(tier, seed, "C01")] + [("release", boundary_grid("release") + views_cases("release"))],
+    "C01": {"modules": ["MiniVecProof.Props.C10Provided", "MiniVecProof.Props.C01", "MiniVecProof.Props.C01Histories", "MiniVecProof.Props.C01Loops", "MiniVecProof.Props.C01Ctors", "MiniVecProof.Props.C01Append", "MiniVecProof.Props.C01SplitOff", "MiniVecProof.Props.C01MacroRepeat", "MiniVecProof.Props.C01ExtendWithin", "MiniVecProof.Props.C17RemoveItem", "MiniVecProof.Props.C12CloneFrom", "MiniVecProof.Props.C12IntoIter", "MiniVecProof.Props.C10DrainFilter", "MiniVecProof.Props.C10Splice"],
+            "cases": lambda tier, seed: [(m, c + views_cases(m) + panic_prefix_cases(m) + clone_glue_cases(m) + lying_hint_cases(m)) for m, c in general(tier, seed, "C01")] + [("release", boundary_grid("release") + views_cases("release"))],
             "owned_oracles": ["O vec-mismatch", "O view-mismatch", "O ledger duplicate-id", "O ledger bitwise-copy", "panic-prefix", "macro-evals", "X signal"], "owned_diffs": ["result", "contents", "panic", "crash"],
             "partial_missing": ["refinement to Vec semantics proved for every history over push, pop, insert, remove, swap_remove, truncate, clear, retain (any predicate), reserve, reserve_exact, shrink_to, shrink_to_fit (C01_refines_vec_partial); separately proved value-for-value: extend_from_slice, resize, resize_with (any generator) (C01Loops), From<&[T]> (C01_from_slice_partial), clone, extend/collect, dedup*, Drain, IntoIter, DrainFilter (any predicate); append, split_off, drain_vec, mini_vec![a, b, c], splice (any replacement iterator), extend_from_within, remove_item (any equality), mini_vec![e; n], clone_from; C01_histories_partial composes them over EVERY history of 25 operation kinds incl. the three borrowing iterators created, stepped and dropped; From<&str>, Cow, the Borrow/AsRef/Deref/Index views are tied to Vec and to the model by the correspondence only (views oracle)"]},
-    "C02": {"modules": ["MiniVecProof.Props.C02", "MiniVecProof.Props.C02Histories", "MiniVecProof.Props.C10", "MiniVecProof.Props.C10IntoIter", "MiniVecProof.Props.C10DrainFilter"],
+    "C02": {"modules": ["MiniVecProof.Props.C10Provided", "MiniVecProof.Props.C02", "MiniVecProof.Props.C02Histories", "MiniVecProof.Props.C10", "MiniVecProof.Props.C10IntoIter", "MiniVecProof.Props.C10DrainFilter"],
             "cases": lambda tier, seed: [(m, c + raw_natural_cases(m) + serde_error_cases(m)) for m, c in general(tier, seed, "C02")],
             "owned_oracles": ["O ledger", "O view-mismatch", "X signal"], "owned_diffs": ["own", "crash"],
             "partial_missing": ["exactly-once destruction and conservation proved for every completed history over the 12 operations of POp (incl. retain with any predicate) followed by Drop (C02_exactly_once_partial, C02_no_double_drop, C02_no_leak); for Drain and IntoIter dropped after any interleaving of steps: yielded front ++ destroyed ++ yielded back reversed = the selected range (specSteps_partition + C10_drain_partial / C10_into_iter_partial); DrainFilter: yielded ++ destroyed = accepted, vector = rejected (C10_drain_filter_partial); C02_histories_partial / C02_histories_into_iter_partial: EVERY completed history over the base operations, extend (any source), dedup / dedup_by / dedup_by_key (any relation), drain(range) with any steps then drop, drain_filter(pred) with any steps then drop, ended by dropping the vector or by into_iter() with any steps then drop: one destructor event per element of `dropped`, and dropped ++ everything yielded or returned is a rearrangement of the starting contents ++ everything handed in; the cloning operations, resize_with, remove_item and Splice by correspondence + per-element ledger"]},
@@ -817,19 +877,20 @@ PROPS = {
             "cases": lambda tier, seed: [(m, c + huge_cases(m) + raw_natural_cases(m) + extend_ref_cases(m) + lying_hint_cases(m) + grow_with_tail_cases(m) + mixed_alignment_cases(m)) for m, c in general(tier, seed, "C03", modes=("debug", "release"))],
             "owned_oracles": ["O alloc", "O cap"], "owned_diffs": ["alloc", "ub", "crash"],
             "partial_missing": ["layout quoting proved for grow (every caller), Drop and IntoIter::drop; C03_world_all_histories: for EVERY finite sequence of protocol operations of the register machine on any number of registers (every constructor of Op: all four iterators alive across other operations, two-vector operations, serde, raw round trips, spare capacity, count) every register stays well formed and no step is an illegal access, a failed assertion or a hang (non-panicking callbacks); the theorem is about the model, tied to the code by the correspondence + checking allocator"]},
-    "C04": {"modules": ["MiniVecProof.Props.C04", "MiniVecProof.Props.C04Drain", "MiniVecProof.Props.C04IntoIter", "MiniVecProof.Props.C04DrainFilter", "MiniVecProof.Props.C04Loops", "MiniVecProof.Props.C04Dedup", "MiniVecProof.Props.C04MacroRepeat", "MiniVecProof.Props.C04Splice", "MiniVecProof.Props.C04Histories", "MiniVecProof.Props.C01"],
+    "C04": {"modules": ["MiniVecProof.Props.C10Provided", "MiniVecProof.Props.C04", "MiniVecProof.Props.C04Drain", "MiniVecProof.Props.C04IntoIter", "MiniVecProof.Props.C04DrainFilter", "MiniVecProof.Props.C04Loops", "MiniVecProof.Props.C04Dedup", "MiniVecProof.Props.C04MacroRepeat", "MiniVecProof.Props.C04Splice", "MiniVecProof.Props.C04Histories", "MiniVecProof.Props.C01"],
             "cases": lambda tier, seed: [("debug", corpus("debug", "C04") + panic_sweep(tier, seed, "debug") + panic_prefix_cases("debug"))],
             "owned_oracles": ["O ledger", "O alloc", "X signal", "panic-prefix"], "owned_diffs": ["own", "contents", "result", "panic", "alloc", "ub", "crash"],
             "partial_missing": ["proved under an ARBITRARY panic oracle (any subset of the callbacks may panic): truncate, clear (C04_truncate_partial, C04_clear_partial: length cut before the first destructor, every doomed element destroyed once unless the double-panic abort) and retain with a panicking predicate or destructor (C04_retain_partial: what is exposed plus what was destroyed is a rearrangement of the contents); drop_in_place semantics dropAll_any; the drop guard of Drain (C04_drain_drop_partial: a destructor panic while the Drain is dropped — the guard destroys the rest and moves the tail back, a second panic is the abort) and Drop for IntoIter (C04_into_iter_drop_partial); DrainFilter::next with a panicking predicate at any point of the scan (C04_drain_filter_partial: the guard moves the unscanned rest back, the vector exposes kept ++ unscanned and nothing was destroyed); dropping a DrainFilter with any predicate call or destructor panicking (C04_drain_filter_drop_partial: never an abort, every unscanned element exposed or destroyed exactly once); extend / extend_from_slice / resize / resize_with with the callback panicking at any call (C04Loops: the elements produced so far stay), Clone for MiniVec (C12_clone_any: source untouched; C12_clone_from_any: self untouched or the new clones in place); collect and From<&[T]> (C04_collect_any, C04_from_slice_any: the partial result is unwound, the caller's vector untouched), dedup / dedup_by / dedup_by_key with the comparison, predicate or key function panicking at any call (C04_dedup_partial: only swaps, so every element is still there exactly once); mini_vec![e; n] (C04_macro_repeat_any), the Splice drop guard at any point of the iterator's consumption (C04_splice_drop_partial: the destructors of the unyielded elements, the replacement's next() and everything the guard calls while a panic unwinds may panic; C04_splice_drop_default_partial on a never-allocated vector), remove_item (PartialEq panics) and extend_from_within (Clone panics; its guard publishes the clones made so far); C04_histories_partial: EVERY history over the 25 operation kinds of HOp with ANY arguments under ANY panic oracle runs to its end or stops at the first operation that does not return, and unless the process aborted (allocation failure, second panic while unwinding) the vector is well formed, so the history can go on; the multi-register operations and serde under panics are decided by the exhaustive crash-point sweep of the correspondence"]},
     "C05": {"modules": ["MiniVecProof.Props.C05", "MiniVecProof.Props.C05Iters"],
-            "cases": lambda tier, seed: [("debug", corpus("debug", "C05") + forget_cases(tier, seed, "debug") + soak(tier, seed, "debug", "C05"))],
+            "cases": lambda tier, seed: [("debug", corpus("debug", "C05") + forget_cases(tier, seed, "debug") + forget_range_cases("debug") + soak(tier, seed, "debug", "C05")),
+                                         ("release", forget_cases(tier, seed, "release")[::3] + forget_range_cases("release"))],
             "owned_oracles": ["O ledger", "O alloc", "X signal"], "owned_diffs": ["own", "contents", "result", "ub", "crash"],
             "partial_missing": ["proved: Drain (C05_drain_forget), Splice (C05_splice_forget) and DrainFilter with any predicate (C05_drain_filter_forget) after ANY steps: the vector left behind exposes only the untouched prefix / nothing; IntoIter owns its vector, forgetting it leaks everything (nothing stays observable): correspondence only"]},
     "C06": {"modules": ["MiniVecProof.Props.C06"],
             "cases": lambda tier, seed: [("debug", corpus("debug", "C06") + sentinel_sweep("debug") + soak(tier, seed, "debug", "C06", n=4000)), ("release", corpus("release", "C06") + sentinel_sweep("release"))],
             "owned_oracles": ["X signal", "O ledger", "O alloc", "O vec-mismatch", "O view-mismatch", "O cmp-slice-mismatch", "sentinel-noalloc"], "owned_diffs": ["result", "contents", "panic", "alloc", "own", "ub", "crash", "cap"]},
     "C07": {"modules": ["MiniVecProof.Props.C07", "MiniVecProof.Props.C07Stable", "MiniVecProof.Props.C01"],
-            "cases": lambda tier, seed: [(m, c + growth_cases(m) + fit_cases(m)) for m, c in general(tier, seed, "C07", modes=("debug", "release"))],
+            "cases": lambda tier, seed: [(m, c + growth_cases(m) + fit_cases(m) + huge_cases(m) + refused_resize_cases(m)) for m, c in general(tier, seed, "C07", modes=("debug", "release"))],
             "owned_oracles": ["O cap", "reserve-contract", "stable", "log-resizes"], "owned_diffs": ["cap", "alloc"],
             "partial_missing": ["stability clause proved (Props/C07Stable: same block identity, same layout, same capacity and alignment, no allocator request, no allocator event) for push, insert, extend (ANY source iterator: only what it yields counts, never its size_hint), extend_from_slice, resize, resize_with (any generator), append (destination empty or not, source roomier or not) whenever the result fits, and for pop, remove, swap_remove, truncate, clear; retain / dedup* / drain / drain_filter keep capacity and block identity in the C17 / C10 theorems; spare_capacity_mut / split_at_spare_mut exact (C07_spare_exact, C07_fill_spare); extend_from_within, splice and clone_from that fit: correspondence + the stability oracle on every adding operation at every fill level (fit_cases)"]},
     "C08": {"modules": ["MiniVecProof.Props.C08"],
@@ -842,7 +903,7 @@ PROPS = {
         "owned_diffs": ["result", "panic", "alloc", "cap", "crash", "ub"],
         "partial_missing": ["lifting of the generated-code theorems through the hand model for resize / resize_with / mini_vec![x; n] / extend_from_slice is by correspondence only"],
     },
-    "C10": {"modules": ["MiniVecProof.Props.C10", "MiniVecProof.Props.C10IntoIter", "MiniVecProof.Props.C10DrainFilter", "MiniVecProof.Props.C10Splice", "MiniVecProof.Props.C06"],
+    "C10": {"modules": ["MiniVecProof.Props.C10Provided", "MiniVecProof.Props.C10", "MiniVecProof.Props.C10IntoIter", "MiniVecProof.Props.C10DrainFilter", "MiniVecProof.Props.C10Splice", "MiniVecProof.Props.C06"],
             "cases": lambda tier, seed: [("debug", corpus("debug", "C10") + iterator_cases(tier, seed, "debug") + lying_hint_cases("debug") + iter_drop_panic_cases("debug") + soak(tier, seed, "debug", "C10", n=12000)),
                                          ("release", boundary_grid("release"))],
             "owned_oracles": ["O vec-mismatch", "O view-mismatch", "iter-drop-outcome", "X signal"], "owned_diffs": ["result", "contents", "ub", "crash", "panic"],
@@ -854,14 +915,14 @@ PROPS = {
         "owned_oracles": ["accept-predicate", "rejected-unchanged", "X signal"],
         "owned_diffs": ["panic", "result"],
     },
-    "C12": {"modules": ["MiniVecProof.Props.C12", "MiniVecProof.Props.C04Loops", "MiniVecProof.Props.C12IntoIter", "MiniVecProof.Props.C12CloneFrom"],
+    "C12": {"modules": ["MiniVecProof.Props.C10Provided", "MiniVecProof.Props.C12", "MiniVecProof.Props.C04Loops", "MiniVecProof.Props.C12IntoIter", "MiniVecProof.Props.C12CloneFrom"],
             "cases": lambda tier, seed: [("debug", corpus("debug", "C12") + clone_cases(tier, seed, "debug") + clone_panic_cases("debug") + soak(tier, seed, "debug", "C12"))],
             "owned_oracles": ["O ledger", "O alloc", "X signal", "O vec-mismatch"], "owned_diffs": ["own", "contents", "result", "alloc", "ub", "crash", "panic"],
             "partial_missing": ["proved: Clone for MiniVec returns a well-formed vector of value-equal clones in order with the source handle untouched, or stops in a sanctioned way (C12_clone_partial); IntoIter::as_slice (what IntoIter::clone copies) is exactly the unyielded elements (into_as_slice); IntoIter::clone after any steps builds a fresh vector of value-equal clones of exactly the unyielded elements with its own cursor, original untouched (C12_into_iter_clone_partial); clone_from (C12_clone_from_partial: self gets value-equal clones, its old elements destroyed once, source untouched; self untouched if cloning stops); independence under later mutation/drop in either order: correspondence with owning elements only (the model cannot share a block between two handles by construction)"]},
     "C14": {"modules": ["MiniVecProof.Props.C14"],
             "cases": lambda tier, seed: [("debug", corpus("debug", "C14") + raw_cases(tier, seed, "debug") + raw_after_ops(tier, "debug")), ("release", raw_cases(tier, seed, "release") + raw_after_ops(tier, "release"))],
             "owned_oracles": ["O rawparts", "O cap", "O ledger", "X signal", "O vec-mismatch", "rawparts-null", "O alloc"], "owned_diffs": ["ub", "result", "contents", "crash", "panic"]},
-    "C17": {"modules": ["MiniVecProof.Props.C17", "MiniVecProof.Props.C17RemoveItem", "MiniVecProof.Props.C10DrainFilter", "MiniVecProof.Props.C10Splice", "MiniVecProof.Props.C01Loops"],
+    "C17": {"modules": ["MiniVecProof.Props.C17", "MiniVecProof.Props.C01Histories", "MiniVecProof.Props.C17RemoveItem", "MiniVecProof.Props.C10DrainFilter", "MiniVecProof.Props.C10Splice", "MiniVecProof.Props.C01Loops"],
             "cases": lambda tier, seed: [("debug", corpus("debug", "C17") + hostile_cases(tier, seed, "debug") + huge_hint_cases("debug") + extend_ref_cases("debug") + clone_glue_cases("debug") + lying_hint_cases("debug") + compare_prefix_cases("debug")),
                                          ("release", huge_hint_cases("release") + extend_ref_cases("release"))],
             "owned_oracles": ["O ledger", "O alloc", "X signal"], "owned_diffs": ["own", "contents", "result", "alloc", "ub", "crash"],
